@@ -1,5 +1,5 @@
 """Texts of the claims made in MANIFEST.json, per property."""
-HOOK_COMMITS = ['78ce041', '65be38d', '036e882', '4be9113', '00cc1df', '2389819', 'c7d762f', '404f48f']
+HOOK_COMMITS = ['78ce041', '65be38d', '036e882', '4be9113', '00cc1df', '2389819', 'c7d762f', '404f48f', '5da2c46']
 
 NOT_APPLICABLE = {}
 
@@ -199,5 +199,19 @@ CLAIMS = {
         'note': TB + 'schemas are transcribed by hand (no extractor); fastssz/ztyp helpers are re-modelled; the zrnt light-client objects inside the beacon wrappers '
                 'are exercised (round trip, digest dispatch, limits, canonical re-encoding), not modelled; values of 4 GiB and more are outside the theorems.',
         'technique': 'Lean 4 proof (generic container round-trip/canonicity + field codecs, induction over slot lists, size bounds) + differential correspondence in both directions',
+    },
+    'C01': {
+        'text': 'Lean 4 theorems about an outcome-class model (reply | empty | value | error | panic@site) of every peer-reachable entry point: '
+                'handleTalkRequest with the four request decoders and the history / beacon / state storage adapters behind FINDCONTENT and OFFER, the four '
+                'response processors, handleOfferedContents, the adapters\' Get/Put, the three validators (by input shape) and TraverseTrieNode. With a '
+                'length / nil guard at each of the 16 unguarded accesses found, no input of any length reaches panic, the talk handler answers empty or '
+                'with the response code of the request, and the only peer-bounded loop makes at most stored+1 look-ups; for each unguarded access a decided '
+                'witness input reaches panic at the named site. The real code is compared by outcome class on ~14k generated inputs per run (168k in the thorough tier) (boundary '
+                'lengths, all codes/selectors, mutations, random) against real adapters over pebble, and attacked over the in-memory discv5 link in child '
+                'processes (empty TALKREQ, empty keys, short summaries keys kill the unrepaired node; uTP packet fuzz followed by a real transfer).',
+        'note': TB + 'partial: panics or blocking inside dependencies (rlp, zrnt/ztyp, blst, pebble, utp-go) are only sampled; validators and the state adapter\'s Put are '
+                'modelled by shape, not byte for byte; blocking of the uTP talk handler on a full 1024-slot channel and send-on-closed-channel after Stop are not exhibited. '
+                'On the unrepaired tree the check fails with one clause per site (no_panic@<function>:<kind>, no_remote_kill@...), which is the finding.',
+        'technique': 'Lean 4 decision-logic proofs with explicit panic outcomes and quirk switches + differential correspondence (outcome classes) + in-process and over-the-wire attack harness',
     },
 }
